@@ -264,15 +264,20 @@ CLAIMS = {
         'numbers, OpenAPI 3.0 `nullable` lowered): for generated schema models and the sample schemas, Example() and the OpenAPI conversion '
         'succeed, the output is a well-formed Schema Object (keyword and type discipline checked), and the example and - one scalar at a time - '
         'every value of a pool that the leaf\'s own rules accept (judged by the exact C01 oracle) are valid instances, with the registered '
-        'types converted as components. Coq theorem (translation soundness for the keywords with arithmetic content): every value the checker '
-        'accepts for a node with type and min/max rules, whatever the spelling of value and bounds, is valid against the type / minimum / '
-        'exclusiveMinimum / maximum / exclusiveMaximum the converter emits, under the JSON Schema meaning of those keywords on the denoted '
-        'decimal values (through C01/C13); the emitted keywords are tied to the model by correspondence.',
-   note='Trusted: Coq kernel; the validator (jsonschema 4.26, formats not enforced) and the well-formedness rules in lib/oracles/oas_validate.py; '
-        'the C01 oracle for "still accepted"; harness. Partial: the theorem covers scalar nodes with type and bound rules; the other keywords '
-        '(lengths, enum, multipleOf, containers, references, anyOf) are decided by the validator only. Known finding F08b (allOf next to '
-        'additionalProperties: false) is pinned by the existing tests and not repaired. No axioms.',
-   technique='translation validation by an independent validator + Coq soundness theorem of the rule->keyword translation for numeric bounds',
+        'types converted as components. Coq theorems over a model of the converter (Model/OasLeaf.v, Model/OasTree.v): for every scalar node, '
+        'every value its rules accept - type, min/max with exclusivity, minLength/maxLength in characters, precision, enum, const, nullable, '
+        'whatever the spelling - is valid against the keywords emitted for it (type, minimum.., minLength/maxLength, multipleOf = 10^-precision, '
+        'enum, nullable) under their JSON Schema / OpenAPI 3.0 meaning on the denoted values (C08_leaf_sound, through C01/C13); and for every '
+        'schema without references built from such nodes under arrays (items as anyOf, item counts, empty array closed) and objects '
+        '(properties, required, additionalProperties false / any / a type name) every value the schema accepts, in particular its own '
+        'example, is valid against the converted Schema Object (C08_tree_sound, C08_example_valid). The whole emitted Schema Object is '
+        'compared with the model on scalar nodes at the edges of every rule and on random trees.',
+   note='Trusted: Coq kernel; the validator (jsonschema 4.26, formats not enforced, 2000-digit decimal context) and the well-formedness rules in '
+        'lib/oracles/oas_validate.py; the C01 oracle for "still accepted"; harness; `inst` (the values a schema accepts) is the documented meaning '
+        'of a JSight schema, not code of this library. Outside the model (validator only): `or`, type references and components, key shortcuts, '
+        'allOf, formats and patterns. Known finding F08b (allOf next to additionalProperties: false) is pinned by the existing tests and '
+        'not repaired; F08c (multipleOf in float64) was found by this tie and repaired. No axioms.',
+   technique='Coq soundness theorems of the schema->Schema Object translation (scalar nodes in full, trees without references) tied by correspondence + translation validation by an independent validator',
    ref='section 9, C08'),
  'C02': dict(
    category='other',
